@@ -112,12 +112,12 @@ CHECKS["C18"] = dict(
 CHECKS["C13"] = dict(
     text="Lean: a machine that follows LazyList.py method by method over a finite source, the invariant `cache = prefix of the source`, "
          "and history_correct: for ALL source lists and ALL observation histories every answer (indexing incl. negative and wrap-around, "
-         "slices counted from the end, length, iteration, truthiness, membership with early exit, equality, counting, reversal, copying, "
+         "slices of both kinds — those counted from the end and the forward-loop ones that pull only as far as they need —, length, iteration, truthiness, membership with early exit, equality, counting, reversal, copying, "
          "indexing a copy) equals the plain list's answer and the denoted sequence never changes (induction over the history, one "
          "correctness lemma per method). Tie: the same histories on the real class vs the machine (exhaustive to length 2/3 over 37 "
          "operations on all lists of length <= 3), and the direct oracle against a Python list.",
-    note=COMMON_NOTE + "Partial in one named way: for forward-loop slices (start >= 0, step > 0) the invariant is proved, the answer equality only "
-         "validated by correspondence. T4: the raw iterator is modelled as a finite list with a position; itertools.tee of a copy as a view that pulls through the parent.",
+    note=COMMON_NOTE + "Every observation is inside the theorem; the one side condition is that a slice step is not 0 (the method replaces 0 / None "
+         "by 1 before anything else). T4: the raw iterator is modelled as a finite list with a position; itertools.tee of a copy as a view that pulls through the parent.",
     technique="Lean 4 proof: state-machine invariant + per-operation refinement lemmas + induction over histories; differential histories on the real class",
     ref="§5 C13")
 
